@@ -51,6 +51,139 @@ pub fn dispatch(op: &str, toks: &[&str]) -> String {
             let frames = ref_decrypt(&file, PASSWORD).map(|x| x.1.len()).unwrap_or(0);
             format!("frames={} {}", frames, tamper_file::<Vec<u8>>(&file, 0, stride, &data.canon_string()))
         }
+        // crypto_serve <write program> <tamper: - | p<pos>:<val> | t<len> | d<frame> (duplicate a frame)> <sched csv|-> <budget|-> <requests csv>
+        // Builds an encrypted stream with CryptoWriter, tampers with it, then serves read_exact requests through a
+        // CryptoReader over a reader that follows the schedule (0 = Interrupted, c = at most c bytes; afterwards unlimited)
+        // and fails after <budget> bytes. Output: FILE <hex> TABLE <d1.d2.cthex=pthex;...> RES <per request: hex | E:eof | E:other | N:<kind>>
+        "crypto_serve" => {
+            let d = ring::digest::digest(&ring::digest::SHA256, PASSWORD.as_bytes());
+            let mut key = [0u8; 32];
+            key.copy_from_slice(d.as_ref());
+            let mut out: Vec<u8> = vec![];
+            {
+                let mut cw = CryptoWriter::new(&mut out, key).unwrap();
+                for (i, o) in toks[0].split(',').enumerate() {
+                    if o == "f" {
+                        cw.flush().unwrap();
+                    } else if !o.is_empty() && o != "-" {
+                        let n: usize = o[1..].parse().unwrap();
+                        cw.write_all(&lcg_bytes(n, i as u64 + 11)).unwrap();
+                    }
+                }
+            }
+            let mut file = out;
+            let t = toks[1];
+            if let Some(rest) = t.strip_prefix('p') {
+                let (pos, val) = rest.split_once(':').unwrap();
+                let pos: usize = pos.parse().unwrap();
+                if pos < file.len() {
+                    file[pos] = val.parse().unwrap();
+                }
+            } else if let Some(rest) = t.strip_prefix('t') {
+                file.truncate(rest.parse().unwrap());
+            } else if let Some(rest) = t.strip_prefix('d') {
+                // duplicate frame number <rest> right after itself
+                let k: usize = rest.parse().unwrap();
+                let mut pos = 12;
+                let mut idx = 0;
+                while pos + 8 <= file.len() {
+                    let l = u64::from_le_bytes(file[pos..pos + 8].try_into().unwrap()) as usize;
+                    if pos + 8 + l > file.len() {
+                        break;
+                    }
+                    if idx == k {
+                        let frame = file[pos..pos + 8 + l].to_vec();
+                        let at = pos + 8 + l;
+                        file.splice(at..at, frame);
+                        break;
+                    }
+                    pos += 8 + l;
+                    idx += 1;
+                }
+            }
+            // table of the frames that authenticate at their position
+            let mut table = Vec::new();
+            if file.len() >= 12 {
+                use ring::aead::{Aad, LessSafeKey, Nonce, UnboundKey, AES_256_GCM};
+                let k = LessSafeKey::new(UnboundKey::new(&AES_256_GCM, &key).unwrap());
+                let mut d1 = u64::from_le_bytes(file[0..8].try_into().unwrap());
+                let mut d2 = u32::from_le_bytes(file[8..12].try_into().unwrap());
+                let mut pos = 12;
+                while pos + 8 <= file.len() {
+                    let l = u64::from_le_bytes(file[pos..pos + 8].try_into().unwrap()) as usize;
+                    if l > 100_016 || pos + 8 + l > file.len() {
+                        break;
+                    }
+                    d2 = d2.wrapping_add(1);
+                    if d2 == 0 {
+                        d1 = d1.wrapping_add(1);
+                    }
+                    let mut nb = [0u8; 12];
+                    nb[..8].copy_from_slice(&d1.to_le_bytes());
+                    nb[8..].copy_from_slice(&d2.to_le_bytes());
+                    let ct = file[pos + 8..pos + 8 + l].to_vec();
+                    let mut chunk = ct.clone();
+                    if let Ok(pt) = k.open_in_place(Nonce::assume_unique_for_key(nb), Aad::empty(), &mut chunk) {
+                        table.push(format!("{}.{}.{}={}", d1, d2, hex(&ct), hex(pt)));
+                    }
+                    pos += 8 + l;
+                }
+            }
+            struct SchedReader<'a> {
+                data: &'a [u8],
+                pos: usize,
+                sched: Vec<usize>,
+                i: usize,
+                budget: Option<usize>,
+            }
+            impl std::io::Read for SchedReader<'_> {
+                fn read(&mut self, buf: &mut [u8]) -> std::io::Result<usize> {
+                    let c = if self.i < self.sched.len() { let c = self.sched[self.i]; self.i += 1; Some(c) } else { None };
+                    if c == Some(0) {
+                        return Err(std::io::Error::new(std::io::ErrorKind::Interrupted, "interrupted"));
+                    }
+                    if let Some(b) = self.budget {
+                        if b == 0 {
+                            return Err(std::io::Error::new(std::io::ErrorKind::Other, "read fault"));
+                        }
+                    }
+                    let mut n = buf.len().min(self.data.len() - self.pos);
+                    if let Some(c) = c {
+                        n = n.min(c);
+                    }
+                    if let Some(b) = self.budget {
+                        n = n.min(b);
+                        self.budget = Some(b - n);
+                    }
+                    buf[..n].copy_from_slice(&self.data[self.pos..self.pos + n]);
+                    self.pos += n;
+                    Ok(n)
+                }
+            }
+            let sched: Vec<usize> = if toks[2] == "-" { vec![] } else { toks[2].split(',').map(|x| x.parse().unwrap()).collect() };
+            let budget: Option<usize> = if toks[3] == "-" { None } else { Some(toks[3].parse().unwrap()) };
+            let reqs: Vec<usize> = if toks.len() < 5 || toks[4] == "-" { vec![] } else { toks[4].split(',').map(|x| x.parse().unwrap()).collect() };
+            let mut r = SchedReader { data: &file, pos: 0, sched, i: 0, budget };
+            let kind = |e: &std::io::Error| if e.kind() == std::io::ErrorKind::UnexpectedEof { "eof" } else { "other" };
+            let mut res = Vec::new();
+            match savefile::CryptoReader::new(&mut r, key) {
+                Err(e) => res.push(format!("N:{}", match &e { savefile::SavefileError::IOError { io_error } => kind(io_error).to_string(), _ => err_class(&e).to_string() })),
+                Ok(mut cr) => {
+                    use std::io::Read;
+                    for n in reqs {
+                        let mut buf = vec![0u8; n];
+                        match cr.read_exact(&mut buf) {
+                            Ok(()) => res.push(hex(&buf)),
+                            Err(e) => {
+                                res.push(format!("E:{}", kind(&e)));
+                                break;
+                            }
+                        }
+                    }
+                }
+            }
+            format!("FILE {} TABLE {} RES {}", hex(&file), if table.is_empty() { "-".to_string() } else { table.join(";") }, if res.is_empty() { "-".to_string() } else { res.join(",") })
+        }
         _ => "UNKNOWN".to_string(),
     }
 }
